@@ -181,6 +181,16 @@ impl Multi<'_> {
     }
 }
 
+impl Multi<'_> {
+    /// global maximum of all scores minus the smallest row maximum
+    pub fn max_row_deficit(&self, t: &[f64]) -> f64 {
+        let rowmax: Vec<f64> = (0..self.x.len()).map(|i| self.scores(t, i).iter().cloned().fold(f64::NEG_INFINITY, f64::max)).collect();
+        let g = rowmax.iter().cloned().fold(f64::NEG_INFINITY, f64::max);
+        let l = rowmax.iter().cloned().fold(f64::INFINITY, f64::min);
+        g - l
+    }
+}
+
 impl Objective for Multi<'_> {
     fn dim(&self) -> usize {
         self.rows() * self.k
